@@ -1696,6 +1696,8 @@ func plotCLIStream(c *run.Ctx, s *kit.Summary, r *kit.Rng) {
 		maxResults = 2000
 	}
 	fixed := tinyThresholdCases(r, "plotcli")
+	cl := &kit.Stream{Name: "c17.plotcli"}
+	defer func() { cl.Diff(c.Driver, s) }()
 	for i := 0; i < c.N(8, 48)+len(fixed); i++ {
 		variant := i % 4
 		base := genResults(r, genOpts{maxResults: maxResults, spanCapMs: tszFirstLimit - 1000})
@@ -1738,7 +1740,9 @@ func plotCLIStream(c *run.Ctx, s *kit.Summary, r *kit.Rng) {
 		}
 		var files []string
 		var stdin []byte
+		var modelParts [][]res // what the command reads, file by file
 		if variant == 1 {
+			modelParts = [][]res{pc.Results}
 			fn := filepath.Join(c.Work, fmt.Sprintf("cli-%d-in.%s", i, format))
 			if err := writeResults(fn, format, pc.Results); err != nil {
 				s.Skipped["plotcli:write-failed"]++
@@ -1762,6 +1766,7 @@ func plotCLIStream(c *run.Ctx, s *kit.Summary, r *kit.Rng) {
 					s.Skipped["plotcli:write-failed"]++
 				}
 				files = append(files, fn)
+				modelParts = append(modelParts, part)
 			}
 			args = append(args, files...)
 		}
@@ -1817,6 +1822,19 @@ func plotCLIStream(c *run.Ctx, s *kit.Summary, r *kit.Rng) {
 			o.line = dataLine(rows, labels)
 		}
 		s.Count("plotcli:outcome=" + strings.Fields(o.line)[0])
+		{ // the model of the command line: flag value or the default, round-robin decoding, Add each, data
+			var sb strings.Builder
+			fmt.Fprintf(&sb, "c17.plotcli %s %d %d", kit.B(variant != 2), th, len(modelParts))
+			for _, part := range modelParts {
+				sb.WriteByte(' ')
+				sb.WriteString(resultsTokens(part))
+			}
+			ml := o.line
+			if strings.HasPrefix(ml, "err") {
+				ml = "err"
+			}
+			cl.Add(sb.String(), ml)
+		}
 		oraclePlot(s, pc, o, "HTML data block (command line)")
 		if o.line != ref.line {
 			s.Violate(kit.Violation{Kind: "plotcli_differs", What: "data block written by `vegeta " + strings.Join(args[:min(6, len(args))], " ") + " …` differs from the library's data for the same results and threshold",
